@@ -202,4 +202,44 @@ Section Fitted.
     rewrite T1. fold n. rewrite (nth_map_seq0 _ n _ Hs), F6.
     split; [reflexivity|]. split; [reflexivity|]. split; [exact F11 | exact (T13 _ Hs)].
   Qed.
+  (* ---------- the batch on the fitted graphs ---------- *)
+
+  Theorem knn_sup_batch_pointwise (g' : @knn R) (c mn mx : R) (qs : list (nat -> R)) :
+    knn_sup_final ROps fmax thr one 1000 k labels gdens0 d e = (g', (c, mn, mx)) ->
+    (forall dq, In dq qs -> forall j, (j < n)%nat -> dq j < fmax) ->
+    knn_query_batch ROps fmax eps 1000 E (g', (c, mn, mx)) k qs
+    = map (knn_query ROps fmax eps 1000 E (g', (c, mn, mx)) k) qs.
+  Proof.
+    intros Hfin Hqs. apply knn_query_batch_pointwise. cbn [fst].
+    rewrite (proj1 (knn_sup_final_forest fmax thr one gdens0 k labels d e Hfm Hd g' c mn mx Hfin)).
+    exact Hqs.
+  Qed.
+
+  Theorem unsup_batch_pointwise (g' : @knn R) (c mn mx : R) (qs : list (nat -> R)) :
+    (k <= n - 1)%nat ->
+    unsup_final ROps fmax thr one 1000 k labels gdens0 d e = (g', (c, mn, mx)) ->
+    (forall dq, In dq qs -> forall j, (j < n)%nat -> dq j < fmax) ->
+    knn_query_batch ROps fmax eps 1000 E (with_propagated_labels (g', (c, mn, mx))) k qs
+    = map (knn_query ROps fmax eps 1000 E (g', (c, mn, mx)) k) qs /\
+    knn_query_batch ROps fmax eps 1000 E (g', (c, mn, mx)) k qs
+    = map (knn_query ROps fmax eps 1000 E (g', (c, mn, mx)) k) qs.
+  Proof.
+    intros Hk Hfin Hqs.
+    assert (A : knn_query_batch ROps fmax eps 1000 E (g', (c, mn, mx)) k qs
+                = map (knn_query ROps fmax eps 1000 E (g', (c, mn, mx)) k) qs).
+    { apply knn_query_batch_pointwise. cbn [fst].
+      rewrite (proj1 (unsup_final_forest fmax thr one gdens0 k labels d e Hk Hfm Hd g' c mn mx Hfin)).
+      exact Hqs. }
+    split; [|exact A]. rewrite <- A. reflexivity.
+  Qed.
 End Fitted.
+
+(* the intended [E]: x |-> exp(-x / constant) lies in (0, 1] on non-negative distances *)
+Lemma exp_term_01 (c : R) : 0 < c -> forall x, 0 <= x -> 0 <= exp (- x / c) <= 1.
+Proof.
+  intros Hc x Hx. split; [left; apply exp_pos|].
+  rewrite <- exp_0. assert (H : - x / c <= 0).
+  { unfold Rdiv. assert (0 < / c) by now apply Rinv_0_lt_compat.
+    assert (0 <= x * / c) by (apply Rmult_le_pos; lra). lra. }
+  destruct H as [H|H]; [left; now apply exp_increasing | rewrite H; lra].
+Qed.
